@@ -31,16 +31,16 @@ type verifResultT struct {
 }
 
 var (
-	verifCur *verifCaseT
-	verifRes *verifResultT
+	verifCur    *verifCaseT
+	verifRes    *verifResultT
 	verifFrozen []verifFrozenT
 )
 
 type verifFrozenT struct {
-	role string
-	dec  *Decimal
-	ctx  *Context
-	big  *BigInt
+	role  string
+	dec   *Decimal
+	ctx   *Context
+	big   *BigInt
 	dsnap Decimal
 	csnap Context
 	bsnap BigInt
